@@ -24,12 +24,14 @@ Definition bindT (z : Dec) (r : ores) (f : Dec -> ores) : ores :=
 Definition pow2 : Dec -> Z -> ores := Scan.pow2.
 
 (* "multiply / divide by 2**exp with increased precision" *)
+Definition prec_extra (z : Dec) : Z := if prec z <? MaxPrec then 1 else 0.
 Definition apply_pow2 (z : Dec) (exp2 : Z) : ores :=
-  let z := with_prec z (u32 (prec z + 1)) in                         (* z.prec++ (uint32) *)
+  let extra := prec_extra z in
+  let z := with_prec z (u32 (prec z + extra)) in                     (* z.prec += extra (uint32) *)
   bindT z (SetPrec dec_zero (prec z)) (fun t =>
   bindR (if exp2 <? 0 then bindT z (pow2 t (u64 (- exp2))) (fun pw => Quo z z pw)
          else bindT z (pow2 t (u64 exp2)) (fun pw => Mul z z pw)) (fun z =>
-  OkR (with_prec z (u32 (prec z - 1))))).                            (* z.prec-- *)
+  OkR (with_prec z (u32 (prec z - extra))))).                        (* z.prec -= extra *)
 
 (* SetFloat64(x) *)
 Definition SetFloat64_fl (z : Dec) (x : fl) : ores :=
@@ -233,7 +235,8 @@ Definition SetFloat (z : Dec) (x : BF) : ores :=
       bindR
         (if exp2 =? 0 then OkR z
          else
-           let z := with_prec z (u32 (prec z + 1)) in
+           let extra := prec_extra z in
+           let z := with_prec z (u32 (prec z + extra)) in
            bindT z (SetPrec dec_zero (prec z)) (fun t =>
            bindR
              (if exp2 <? 0 then
@@ -244,7 +247,7 @@ Definition SetFloat (z : Dec) (x : BF) : ores :=
                   bindT z (pow2 pw (u64 (- exp2'))) (fun pw' => Quo z z pw')))
                 else bindT z (pow2 t (u64 (- exp2))) (fun pw => Quo z z pw)
               else bindT z (pow2 t (u64 exp2)) (fun pw => Mul z z pw))
-             (fun z => OkR (with_prec z (u32 (prec z - 1))))))
+             (fun z => OkR (with_prec z (u32 (prec z - extra))))))
         (fun z => of_opt (round z 0)))
   end.
 
@@ -257,7 +260,7 @@ Definition Float (x : Dec) (znil : bool) (z : BF) : option BF :=
   let z := bf_SetPrec z 0 in
   match dform x with
   | Fzero =>
-      let z := bf_SetPrec z p in
+      let z := bf_SetUint64 (bf_SetPrec z p) 0 in                    (* z.SetPrec(p).SetInt64(0) *)
       Some (if xorb (neg x) (bneg z) then bf_Neg z else z)
   | Finf => Some (bf_SetPrec (bf_SetInf z (neg x)) p)
   | Ffinite =>
